@@ -50,6 +50,10 @@ def dec(x: Fr, min_places=0) -> str:
     return sign + (s[:-places] + "." + s[-places:] if places else s)
 
 
+# 60000/bpm is an exact binary64 value with a short mantissa
+EXACT_BPMS = [60, 75, 93.75, 100, 120, 125, 150, 160, 187.5, 200, 240, 250, 300, 375, 400, 480]
+
+
 def bpm_value(rng):
     r = rng.random()
     if r < 0.45:
